@@ -15,7 +15,8 @@ decl.default_props(["C01"])
 from . import c01_registry  # noqa: E402,F401
 decl.default_props([])
 for _m in ("c02_chain", "c05_quantity", "c06_converters", "c14_groups", "c17_helpers", "c18_errors", "c08_names", "c15_qto",
-           "c10_defs", "c03_addsub", "c07_eval", "c09_format", "c16_numpy", "c19_measurement", "c20_standards", "c13_caches"):
+           "c10_defs", "c03_addsub", "c07_eval", "c09_format", "c16_numpy", "c19_measurement", "c20_standards", "c13_caches",
+           "c14_members"):
     try:
         __import__(f"contracts.{_m}")
     except ModuleNotFoundError as e:
